@@ -47,12 +47,13 @@ HdrLen(f) == 2 + (IF f.lk # "n" THEN 8 ELSE IF f.nonmin THEN (IF f.len <= 125 TH
                   ELSE IF f.len <= 125 THEN 0 ELSE IF f.len <= 65535 THEN 2 ELSE 8)
              + (IF f.mk THEN 4 ELSE 0)
 
-Annotate(f, i, c) ==
+Annotate(f, i, c, sw) ==
   LET base == [op |-> f.op, fin |-> f.fin, r1 |-> f.r1, r2 |-> f.r2, r3 |-> f.r3, mk |-> f.mk,
                len |-> f.len, lk |-> f.lk, min |-> ~f.nonmin,
-               code |-> f.code, utf8 |-> (f.rs # "bad")]
+               code |-> f.code, utf8 |-> (f.rs # "bad"), plain |-> f.plain, comp |-> (f.comp # "")]
       huge == f.lk # "n"
-  IN IF c.frame = 0 \/ i < c.frame THEN
+  IN IF sw THEN base @@ [arr |-> "none", h2 |-> FALSE, hdrOK |-> FALSE, pgot |-> 0]
+     ELSE IF c.frame = 0 \/ i < c.frame THEN
           IF huge THEN base @@ [arr |-> "part", h2 |-> TRUE, hdrOK |-> TRUE, pgot |-> f.len]
           ELSE base @@ [arr |-> "full", h2 |-> TRUE, hdrOK |-> TRUE, pgot |-> f.len]
      ELSE IF i > c.frame THEN base @@ [arr |-> "none", h2 |-> FALSE, hdrOK |-> FALSE, pgot |-> 0]
@@ -71,7 +72,7 @@ Init ==
   /\ cfg \in Cfgs
   /\ \E st \in Streams(cfg) :
        /\ cut \in Cuts(st)
-       /\ fr = [i \in 1..Len(st) |-> Annotate(st[i], i, cut)]
+       /\ fr = [i \in 1..Len(st) |-> Annotate(st[i], i, cut, \E j \in 1..(i - 1) : st[j].lk # "n")]
        /\ prog \in Progs(st)
        /\ PrintT(<< "PROG", ToJson(Program(cfg, st, cut, prog)) >>)
   /\ s = S0 /\ pc = 1 /\ hist = << >>
